@@ -842,6 +842,7 @@ func runBubble(p *Plan, out *sim.Outcome, log *sim.Log) (*runState, *sim.Violati
 	}
 	if soft != nil {
 		out.Probes["lastqueued_inconsistent"]++
+		out.Probes["lastqueued_inconsistent/"+soft.Sig]++
 	}
 	if viol == nil && !unwound {
 		var stuck []string
@@ -856,9 +857,9 @@ func runBubble(p *Plan, out *sim.Outcome, log *sim.Log) (*runState, *sim.Violati
 			viol = sim.Violatef("run-not-stopped", "", "the drain goroutine did not exit after Discard")
 		}
 	}
-	if viol == nil {
-		viol = soft
-	}
+	// LastQueued bookkeeping is not part of the C20 statement: inconsistencies are counted
+	// (probe lastqueued_inconsistent[/kind]) and described in DESIGN.md, never raised.
+	_ = soft
 	st.height = h.height
 	for _, a := range h.applied {
 		st.applied = append(st.applied, fmt.Sprintf("%d%s", a.idx, a.via[:1]))
